@@ -78,6 +78,8 @@ pub fn run_jobs(ctx: &mut Ctx, op: &'static str, jobs: Vec<Job>) -> Vec<Done> {
     let mut lines = Vec::new();
     let mut pre = Vec::new();
     let mut huge: Vec<bool> = Vec::new();
+    let mut diag_lines: Vec<String> = Vec::new();
+    let mut diag_imp: Vec<String> = Vec::new();
     for job in jobs {
         let req = match imp::build_request(&job.case) {
             Some(r) => r,
@@ -102,7 +104,35 @@ pub fn run_jobs(ctx: &mut Ctx, op: &'static str, jobs: Vec<Job>) -> Vec<Done> {
         }
         let mut prov = imp::provider_for(vec![imp::entry_of(&job.case)]);
         let v = imp::validate_with(&job.case, req, &mut prov);
+        // tighter tie: for a share of the cases also compare the canonical request bytes, the extracted
+        // parameters and the string-to-sign (diagnostic, unstable API) with the model
+        let is_huge = *huge.last().unwrap();
+        if !is_huge && (ctx.thorough || pre.len() % 3 == 0) {
+            let fields = job.case.fields(&path, query.as_deref(), &other);
+            if let (Some(r1), Some(r2)) = (imp::build_request(&job.case), imp::build_request(&job.case)) {
+                diag_lines.push(format!("AUTH {}", fields));
+                diag_imp.push(imp::auth_op(&job.case, r1));
+                diag_lines.push(format!("STS {}", fields));
+                diag_imp.push(imp::sts_op(&job.case, r2));
+            }
+        }
         pre.push((job, v, submitted_uri));
+    }
+    let diag_model = ctx.drv.ask_all(&diag_lines);
+    for ((line, im), mo) in diag_lines.iter().zip(diag_imp.iter()).zip(diag_model.iter()) {
+        ctx.rep.count("evaluations.diagnostic");
+        if !imp::same_outcome(im, mo) {
+            ctx.rep.fail(Failure {
+                kind: "CORR",
+                op: line.split(' ').next().unwrap_or("").to_string(),
+                class: "diagnostic".into(),
+                input: line.clone(),
+                imp: im.clone(),
+                model: mo.clone(),
+                spec: String::new(),
+                clause: "implementation and model disagree on canonical request bytes / extracted parameters / string-to-sign".into(),
+            });
+        }
     }
     let answers = ctx.drv.ask_all(&lines);
     let mut out = Vec::new();
